@@ -1277,8 +1277,11 @@ def main():
             (f'{m}.v', (lambda repo_, report_, m_=m: gen_relational(repo_, report_, m_))) for m in REL_FILES) + tuple(
             (f'{m}.v', (lambda repo_, report_, m_=m: gen_shapes(repo_, report_, m_))) for m in SHAPE_FILES) + tuple(
             (f'{m}.v', (lambda repo_, report_, m_=m: gen_misc(repo_, report_, m_))) for m in MISC_FILES):
+        n0 = len(report['kernels'])
         try:
             text = fn(repo, report)
+            for kk in report['kernels'][n0:]:
+                kk['gen'] = fname
             changed = write_if_changed(os.path.join(outdir, fname), text)
             report['files'][fname] = {'changed': changed, 'sha256_16': hashlib.sha256(text.encode()).hexdigest()[:16]}
         except Exception as e:      # Unsupported, or the source no longer has the shape a pattern walks through
